@@ -557,7 +557,11 @@ func (m *Machine) chooseIntX(t *Term, lo, hi int, maxVals int, soft bool) (int, 
 				m.recordDecision(declined, true)
 				return 0, false
 			}
-			panic(pathEnd{"unwind", "more than 64 feasible values for a symbolic size/index at " + m.position()})
+			// too many sizes to enumerate: continue with three representatives so that violations
+			// on such paths are still found, and flag the exploration as incomplete
+			m.res.Incon = append(m.res.Incon, "unwind: more than 64 feasible values for a symbolic size/index at "+m.position()+" (sampled 3)")
+			sort.Ints(feas)
+			feas = []int{feas[0], feas[len(feas)/2], feas[len(feas)-1]}
 		}
 		sort.Ints(feas)
 	}
